@@ -315,7 +315,7 @@ def check(repo: Repo, R) -> None:
     from . import c02
     from .shared import Retag
 
-    c02.live_passes(repo, Retag(R, lambda r, k: "C08.4-every-call-runs-every-pass" if k.endswith("Elaborator.elaborate") else None,
+    R.run(c02.live_passes, repo, Retag(R, lambda r, k: "C08.4-every-call-runs-every-pass" if k.endswith("Elaborator.elaborate") else None,
                                 "a repeated call on a design that an earlier call rejected skips the pass that rejected it and returns a package"))
     R.floor("C08.1-pending-released-on-every-exit", 2)
     R.floor("C08.2-done-only-after-body-returned", 2)
